@@ -414,12 +414,23 @@ def _check_lock(P: Program, rep: Report) -> None:
             n += 1
             lock = src(c.func.value)
             a_nodes = [x for x in g.nodes if x.stmt is not None and x.kind == "stmt" and any(y is c for y in ast.walk(x.stmt))]
+            # acquire(timeout=...) used as a condition: only the branch on which the lock IS held carries the obligation
+            not_held: Set[int] = set()
+            for x in g.nodes:
+                if x.stmt is not None and x.kind == "test" and isinstance(x.stmt, (ast.If, ast.While)) and any(y is c for y in ast.walk(x.stmt.test)):
+                    t = x.stmt.test
+                    neg = isinstance(t, ast.UnaryOp) and isinstance(t.op, ast.Not) and t.operand is c
+                    if not (neg or t is c):
+                        raise AnalysisError(f"{f.qualname}: {lock}.acquire() inside a compound condition: which branch holds the lock is not decided")
+                    failed = x.stmt.body if neg else x.stmt.orelse
+                    not_held |= {id(z) for st_ in failed for z in ast.walk(st_)}
+                    a_nodes.append(x)
             rel = {x for x in g.nodes if x.stmt is not None and x.kind == "stmt" and any(isinstance(y, ast.Call) and isinstance(y.func, ast.Attribute)
                                                                                        and y.func.attr == "release" and src(y.func.value) == lock for y in ast.walk(x.stmt))}
             rep.instance("R23.4", f"acquire/{f.qualname}/{lock}")
             for a in a_nodes:
                 for s in g.norm_succ.get(a, set()):
-                    if s in rel:
+                    if s in rel or (s.stmt is not None and id(s.stmt) in not_held):
                         continue
                     for ex, kind in ((g.exit, "normal"), (g.raise_exit, "exception")):
                         p = g.path_avoiding(s, lambda x, ex=ex: x is ex, lambda x: x in rel) if s is not ex else [s]
